@@ -27,8 +27,8 @@ TECH = {
     "C10": "Lean 4 proof: dispatch arms regenerated as tables, lookup theorem + default-method obligations; differential correspondence with a recording mock",
     "C11": "Lean 4 proof: kernel-evaluated (decide +kernel) obligations over all 256 command bytes on regenerated tables, lifted to every payload; differential correspondence",
     "C12": "Lean 4 proof: exact-capacity theorems per leaf and list (G-CAP) over regenerated capacities; differential correspondence at every limit +-1",
-    "C13": "Lean 4 proof: UTF-8 scalar structure, 3-byte look-back always finds a boundary, truncation = longest whole-character prefix; window regenerated; differential correspondence; Miri (thorough)",
-    "C14": "Lean 4 proof: filter folds (order, capacity, unknown flag) by list induction over regenerated tables; loop-shape recognition in the translator; differential correspondence",
+    "C13": "Lean 4 proof: UTF-8 scalar structure, 3-byte look-back always finds a boundary, truncation = longest whole-character prefix, message-level G-PREFIX (entity / request with a long name decodes as with the name cut beforehand); window regenerated; differential correspondence; Miri (thorough)",
+    "C14": "Lean 4 proof: filter folds (order, capacity, unknown flag) by list induction over regenerated tables, every entry examined wherever it stands (fault at any position is an error); loop-shape recognition in the translator; differential correspondence",
     "C15": "Lean 4 proof: decode(encode v) = v and encode(decode b) = b by mutual induction under decidable well-formedness of regenerated schemas; differential correspondence",
     "C16": "Lean 4 proof: schema-extension relation implies identical bytes / embedded values (G-EXT, mutual induction); decide obligations for all 27 ordered configuration pairs; cross-configuration correspondence",
     "C17": "Lean 4 proof: framing theorem (fits completely or one error byte, prior content irrelevant) over regenerated response switch; differential correspondence around every capacity",
